@@ -615,6 +615,44 @@ fn run(ctx: &mut Ctx) {
             ctx.leaf(|| J::obj().set("body", "long-region/large-tag").set("payload_len", total).set("first_tag_type", modtype), |ctx| exec_region(ctx, &huge, &pl, true));
         }
     }
+    // self-referential contents: module tags whose address range covers, touches or equals the memory the boot
+    // information itself occupies (a region placed below 4 GiB, so that 32-bit module addresses can reach it)
+    ctx.bound("self_referential_modules", "regions [module][other][module][end] placed below 4 GiB whose module ranges are taken from {the region itself, the region widened by a page, 0..0xFFFFFFFF, the region's start..start, the page behind the region, 0x1000..0x2000}: the module iterator yields every module tag of the walk, whatever it points at");
+    {
+        // a fixed address (1 GiB), so that the images are the same in every process (cross-configuration runs
+        // compare transcripts that include payload hashes); if that range is taken, any address below 4 GiB - but
+        // then not in a cross-configuration run
+        let fixed = Arena::new_ending_at(2, 0x4000_0000);
+        let skip = fixed.is_none() && ctx.uniform();
+        let low = fixed.unwrap_or_else(|| Arena::new_low(2));
+        let region_len = 8 + 24 + 16 + 24 + 8;
+        let addr = low.end() as usize - region_len;
+        let a32 = addr as u32;
+        let ranges: [(u32, u32); 6] = [(a32, a32 + region_len as u32), (a32.wrapping_sub(0x1000), a32 + 0x1000), (0, 0xFFFF_FFFF), (a32, a32), (a32 + region_len as u32, a32 + region_len as u32 + 0x1000), (0x1000, 0x2000)];
+        for r1 in 0..6usize {
+            for r2 in 0..6usize {
+                if skip {
+                    continue;
+                }
+                let mut pl: Vec<u8> = vec![];
+                pl.extend(bi::enc_module(ranges[r1].0, ranges[r1].1, b"first\0"));
+                while pl.len() % 8 != 0 {
+                    pl.push(0);
+                }
+                pl.extend_from_slice(&[1, 0, 0, 0, 12, 0, 0, 0, b'a', b'b', b'c', 0, 0, 0, 0, 0]);
+                pl.extend(bi::enc_module(ranges[r2].0, ranges[r2].1, b"second\0"));
+                while pl.len() % 8 != 0 {
+                    pl.push(0);
+                }
+                pl.extend_from_slice(&[0, 0, 0, 0, 8, 0, 0, 0]);
+                assert_eq!(pl.len() + 8, region_len);
+                ctx.leaf(
+                    || J::obj().set("body", "self-referential-modules").set("first_range", r1).set("second_range", r2).set("note", "ranges are derived from the address the region is placed at").set("payload_len", pl.len()),
+                    |ctx| exec_region(ctx, &low, &pl, true),
+                );
+            }
+        }
+    }
     // histories
     let depth = if quick { 4 } else if ctx.dev_profile() { 5 } else { 6 };
     let hp = if quick { 24 } else { 32 };
